@@ -264,6 +264,9 @@ def builtin(fr, name, n):
 def builtin_value(fr, name, args, kw, n):
     ctx = fr.ctx
     a0 = args[0] if args else None
+    if name in ('any', 'all') and a0 is not None and a0[0] in ('list', 'tuple') and len(args) == 1 and not kw:
+        ts = [fr.fold(x) for x in a0[1]]
+        return T.or_(ts) if name == 'any' else T.and_(ts)         # any / all over an explicit sequence of conditions
     if name == 'len' and a0 is not None:
         return length(a0)
     if name == 'int' and a0 is not None:
